@@ -476,6 +476,11 @@ theorem with_family_fixed :
       (Pfst.Gen.C08Families.table.filter (fun r => Pfst.SharedDelims.fixWithItems r.1)).map (·.1) = ["AsyncWith", "With"] := by
   decide
 
+/-- **An identifier is stored in the form CPython reads back**: all four identifier normalisers normalise (NFKC) in all four
+code forms — the twins cannot disagree, and a node given as FST is treated like its source text. -/
+theorem identifier_forms_normalised :
+    Pfst.SharedDelims.identFormsNormalised = true ∧ Pfst.Gen.C08Ident.table.length = 16 := by decide
+
 /-- **`AnnAssign.simple` after a put into the target is what CPython gives the new source**: 1 exactly for a bare,
 unparenthesised name — any number of parentheses and any non-Name target give 0. -/
 theorem annSimple_correct (isName : Bool) (npars : Nat) :
